@@ -13,6 +13,11 @@ SVD-SCALING      dimensional analysis (rules/homog.py): the SVD of c*A is (U, c*
                  "orthonormal singular vectors" and "true singular values".
 FLIP-PAIRED      sign resolution must not change the product U diag(S) V: in each branch of
                  svd_flip the sign vector multiplies U *and* V (s*s == 1), nothing else.
+NONNEG-OPTION    the non-negative option: both factors returned by make_svd_non_negative are
+                 built from clipped / absolute-valued operands by sign-preserving operators
+                 (abstract interpretation over {non-negative, any}, data and singular vectors
+                 arbitrary, singular values non-negative), for nndsvd and nndsvda; and
+                 svd_interface returns exactly that pair when the option is on.
 DISPATCH-AGREE   svd_interface's string dispatch: the branch `method == "<name>"` selects the
                  function called <name>, and SVD_FUNS lists exactly these names.
 """
@@ -60,6 +65,8 @@ def run(ctx: Ctx):
     )
     ctx.guarded(flip_paired, ctx)
     ctx.guarded(dispatch_agree, ctx)
+    res.rule("NONNEG-OPTION", "sign analysis ({non-negative, any} abstract interpretation, the domain of C10): for arbitrary (signed) data and arbitrary singular vectors, make_svd_non_negative returns two entrywise non-negative factors under each of its variants, and svd_interface with the non-negative option returns exactly those", floor=4)
+    ctx.guarded(nonneg_option, ctx)
 
 
 def flip_paired(ctx: Ctx):
@@ -127,3 +134,50 @@ def dispatch_agree(ctx: Ctx):
         raise AnalysisError("DISPATCH-AGREE: no `method == <name>` branch found in svd_interface")
     if sorted(seen) != sorted(names):
         ctx.finding("DISPATCH-AGREE", f, f.node, f"SVD_FUNS lists {sorted(names)} but svd_interface dispatches {sorted(seen)}", construct="SVD_FUNS vs dispatch")
+
+
+def nonneg_option(ctx: Ctx):
+    from ..absint import Const, Interp, Leaf, Sym, Tup
+    from .c10 import ANYL, NN, Sign, anyd
+
+    repo, res = ctx.repo, ctx.res
+    f = repo.func(S + "make_svd_non_negative")
+    need = ["tensor", "U", "S", "V", "nntype"]
+    if [p for p in need if p not in f.all_params]:
+        raise AnalysisError(f"NONNEG-OPTION: make_svd_non_negative no longer takes {need}")
+    for label, nntype in (("nntype=True (nndsvda)", Const(True)), ("nndsvd", Const("nndsvd")), ("nndsvda", Const("nndsvda"))):
+        dom = Sign(repo, (), ())
+        it = Interp(repo, dom)
+        it.decide_hook = dom.decide_test
+        it.min_one_iter = dom.min_one_iter
+        args = {"tensor": Sym(anyd("signed data")), "U": Sym(anyd("left singular vectors")), "S": Sym(NN), "V": Sym(anyd("right singular vectors")), "nntype": nntype}
+        r = it.call_function(f, args)
+        parts = r.ret.elts if isinstance(r.ret, Tup) else None
+        if parts is None or len(parts) != 2:
+            raise AnalysisError(f"NONNEG-OPTION: make_svd_non_negative [{label}] does not return a pair any more")
+        for name, v in zip(("W", "H"), parts):
+            d = getattr(v, "d", None)
+            if d is None:
+                raise AnalysisError(f"NONNEG-OPTION: returned {name} of make_svd_non_negative [{label}] is not an array value in the abstraction")
+            ok = d[0] != ANYL
+            res.instance("NONNEG-OPTION", f"make_svd_non_negative [{label}]: {name}", sample={"sign": "non-negative" if ok else "any", "ok": ok})
+            if not ok:
+                labs = sorted(d[1]) or ["(source not recorded)"]
+                ctx.finding("NONNEG-OPTION", f, None, f"make_svd_non_negative [{label}] can return negative entries in `{name}`: it is not built from clipped / absolute-valued operands by sign-preserving operators. Signed source(s): {'; '.join(labs)}", construct=f"make_svd_non_negative [{label}] {name} <- {labs[0][:100]}", sources=labs)
+    # svd_interface hands out exactly that pair
+    g = repo.func(S + "svd_interface")
+    ok = False
+    for s_ in own_scope_nodes(g.node):
+        if isinstance(s_, ast.If) and "non_negative" in src(s_.test):
+            for b in s_.body:
+                if isinstance(b, ast.Assign) and isinstance(b.value, ast.Call) and (getattr(b.value.func, "id", None) == "make_svd_non_negative" or getattr(b.value.func, "attr", None) == "make_svd_non_negative"):
+                    tg = b.targets[0]
+                    if isinstance(tg, ast.Tuple) and [src(e) for e in tg.elts] == ["U", "V"]:
+                        # nothing rebinds U / V between this statement and the return
+                        later = [n for n in g.node.body if n.lineno > s_.lineno]
+                        rebinding = [n for n in later for x in ast.walk(n) if isinstance(x, ast.Assign) and any(isinstance(t, ast.Name) and t.id in ("U", "V") for tt in x.targets for t in ast.walk(tt))]
+                        rets = [n for n in later if isinstance(n, ast.Return)]
+                        ok = not rebinding and len(rets) == 1 and isinstance(rets[0].value, ast.Tuple) and [src(e) for e in rets[0].value.elts] == ["U", "S", "V"]
+    res.instance("NONNEG-OPTION", "svd_interface: the non-negative pair is what is returned", sample={"ok": ok})
+    if not ok:
+        ctx.finding("NONNEG-OPTION", g, g.node, "svd_interface no longer returns exactly the pair produced by make_svd_non_negative when the non-negative option is on (it is re-bound, post-processed or not requested)", construct="svd_interface: non-negative pair not returned as is")
